@@ -358,6 +358,71 @@ func (c *Ctx) IsRoot(r *Term) *Term {
 	}
 	return c.mk(&Term{Op: "is-root", Args: []*Term{r}, S: BoolS})
 }
+
+// PreExisting: the object the reference lies in (following field / element
+// steps up to depth levels) was allocated before identity a0.
+func (c *Ctx) PreExisting(r, a0 *Term, depth int) *Term {
+	switch r.Op {
+	case "nilref":
+		return c.True()
+	case "root":
+		return c.IntLt(r.Args[0], a0)
+	case "sub", "idx":
+		return c.PreExisting(r.Args[0], a0, depth)
+	}
+	rootCase := c.Or(c.Not(c.IsRoot(r)), c.IntLt(c.RootID(r), a0))
+	if depth == 0 {
+		return rootCase
+	}
+	isSub := c.mk(&Term{Op: "is-sub", Args: []*Term{r}, S: BoolS})
+	isIdx := c.mk(&Term{Op: "is-idx", Args: []*Term{r}, S: BoolS})
+	subp := c.mk(&Term{Op: "subp", Args: []*Term{r}, S: RefS})
+	idxp := c.mk(&Term{Op: "idxp", Args: []*Term{r}, S: RefS})
+	return c.And(rootCase, c.Or(c.Not(isSub), c.PreExisting(subp, a0, depth-1)), c.Or(c.Not(isIdx), c.PreExisting(idxp, a0, depth-1)))
+}
+
+// InObject: r is the reference obj or lies inside the object obj (field / element steps, up to depth).
+func (c *Ctx) InObject(r, obj *Term, depth int) *Term {
+	if r == obj {
+		return c.True()
+	}
+	switch r.Op {
+	case "nilref", "root":
+		return c.Eq(r, obj)
+	case "sub", "idx":
+		return c.InObject(r.Args[0], obj, depth)
+	}
+	if depth == 0 {
+		return c.Eq(r, obj)
+	}
+	isSub := c.mk(&Term{Op: "is-sub", Args: []*Term{r}, S: BoolS})
+	isIdx := c.mk(&Term{Op: "is-idx", Args: []*Term{r}, S: BoolS})
+	subp := c.mk(&Term{Op: "subp", Args: []*Term{r}, S: RefS})
+	idxp := c.mk(&Term{Op: "idxp", Args: []*Term{r}, S: RefS})
+	return c.Or(c.Eq(r, obj), c.And(isSub, c.InObject(subp, obj, depth-1)), c.And(isIdx, c.InObject(idxp, obj, depth-1)))
+}
+
+// NewObject: the object r lies in was allocated at or after identity a0.
+func (c *Ctx) NewObject(r, a0 *Term, depth int) *Term {
+	switch r.Op {
+	case "nilref":
+		return c.False()
+	case "root":
+		return c.IntLe(a0, r.Args[0])
+	case "sub", "idx":
+		return c.NewObject(r.Args[0], a0, depth)
+	}
+	rootCase := c.And(c.IsRoot(r), c.IntLe(a0, c.RootID(r)))
+	if depth == 0 {
+		return rootCase
+	}
+	isSub := c.mk(&Term{Op: "is-sub", Args: []*Term{r}, S: BoolS})
+	isIdx := c.mk(&Term{Op: "is-idx", Args: []*Term{r}, S: BoolS})
+	subp := c.mk(&Term{Op: "subp", Args: []*Term{r}, S: RefS})
+	idxp := c.mk(&Term{Op: "idxp", Args: []*Term{r}, S: RefS})
+	return c.Or(rootCase, c.And(isSub, c.NewObject(subp, a0, depth-1)), c.And(isIdx, c.NewObject(idxp, a0, depth-1)))
+}
+
 func (c *Ctx) RootID(r *Term) *Term {
 	if r.Op == "root" {
 		return r.Args[0]
@@ -820,6 +885,9 @@ func (c *Ctx) Forall(vars []*Term, body *Term) *Term {
 
 // ForallPat is Forall with an instantiation pattern (E-matching trigger).
 func (c *Ctx) ForallPat(vars []*Term, body *Term, pat *Term) *Term {
+	if !patternSafe(pat) {
+		return c.Forall(vars, body)
+	}
 	if body.IsTrue() {
 		return body
 	}
@@ -999,6 +1067,14 @@ func (c *Ctx) print(sb *strings.Builder, t *Term, names map[*Term]string, depth 
 		sb.WriteByte(')')
 	case "is-root":
 		sb.WriteString("((_ is root) ")
+		c.print(sb, t.Args[0], names, depth+1)
+		sb.WriteByte(')')
+	case "is-sub", "is-idx":
+		sb.WriteString("((_ is " + t.Op[3:] + ") ")
+		c.print(sb, t.Args[0], names, depth+1)
+		sb.WriteByte(')')
+	case "subp", "idxp":
+		sb.WriteString("(" + t.Op + " ")
 		c.print(sb, t.Args[0], names, depth+1)
 		sb.WriteByte(')')
 	case "int2bv":
